@@ -6,7 +6,7 @@ W=/tmp/wt/mut_$(basename $D)_$$
 git -C /repo worktree add -q --detach $W HEAD || exit 2
 git -C $W apply "$D/patch.diff" || { echo "$D: patch does not apply"; git -C /repo worktree remove --force $W; exit 2; }
 for c in "$@"; do
-  out=$(cd /verif && VERIF_REPO=$W VERIF_OUT=/tmp/wt/out_$$ timeout 1800 ./vchk $c quick 2>&1); code=$?
+  out=$(cd ${VERIF_DIR:-/verif} && VERIF_REPO=$W VERIF_OUT=/tmp/wt/out_$$ timeout 1800 ./vchk $c quick 2>&1); code=$?
   echo "MUT $(basename $D) check=$c exit=$code"
   echo "$out" | grep -E "^(VIOLATION|KNOWN-FINDING|HARNESS-PROBLEM|  obligation)" | cut -c1-400 | head -6
 done
